@@ -271,7 +271,7 @@ class Gen:
     # ---- malformed stream
     def malformed_fn(self):
         r = self.r
-        c = r.randrange(0, 28)
+        c = r.randrange(0, 30)
         ty = r.choice(PT)
         if c == 0:
             return self.new_fn([], [], nonfunc=r.choice(["nil", "int", "ptr", "struct", "nilfunc", "nilfunc1"]))
@@ -337,13 +337,27 @@ class Gen:
                 bad = self.field("B", u(r.choice(PT)), {"optional": r.choice(["maybe", "2"])})
                 return self.new_fn([self.st([self.in_field(), good, bad])], [u(r.choice(PT))])
             return self.new_fn([self.st([self.in_field(), good]), self.st([self.out_field(), self.field("A", u(ty))])], [u(r.choice(PT))])
+        if c == 28:  # (as a decorator) a value-group result that is not a slice: only whole groups can be decorated
+            g = r.choice(["g", "h"])
+            return self.new_fn([self.st([self.in_field(), self.field("G", u(self.slice_of(ty)), {"group": g})])],
+                               [self.st([self.out_field(), self.field("G", u(ty), {"group": g})])])
+        if c == 29:  # an interface-typed result (As naming the result's own type is skipped by dig)
+            return self.new_fn([], [u(r.choice(IF))] + ([u(0)] if r.random() < 0.3 else []))
         # c == 25: group tag on a nested In object field / name tag on a nested object (ignored by dig)
         inner = self.st([self.in_field(), self.field("X", u(ty))])
         return self.new_fn([self.st([self.in_field(), self.field("O", inner, {"name": "zz", "optional": "maybe"})])], [u(r.choice(PT))])
 
     def malformed_opts(self, opts):
         r = self.r
-        c = r.randrange(0, 9)
+        c = r.randrange(0, 11)
+        if c == 9:
+            # a name for whatever the function returns (rejected for result objects)
+            opts.update(name="n1"); opts["opts"] = list(set(opts["opts"]) | {"name"})
+            return opts
+        if c == 10:
+            # As naming interfaces in general, possibly the result's own (interface) type
+            opts["as"] = [{"iface": i} for i in r.sample(IF, r.choice([1, 2]))]; opts["opts"] = list(set(opts["opts"]) | {"as"})
+            return opts
         if c == 0:
             opts.update(name="n1", group="g"); opts["opts"] = ["name", "group"]
         elif c == 1:
@@ -351,7 +365,7 @@ class Gen:
         elif c == 2:
             opts.update(group="g`"); opts["opts"] = ["group"]
         elif c == 3:
-            opts["as"] = [r.choice([{"nil": True}, {"val": 10}, {"ptrTo": 10}, {"ptrTo": 30}])]; opts["opts"] = list(set(opts["opts"]) | {"as"})
+            opts["as"] = [r.choice([{"nil": True}, {"val": 10}, {"val": 70}, {"val": 30}, {"ptrTo": 10}, {"ptrTo": 30}])]; opts["opts"] = list(set(opts["opts"]) | {"as"})
         elif c == 4:
             opts["as"] = [{"iface": r.choice(IF)}, {"iface": r.choice(IF)}]; opts["opts"] = list(set(opts["opts"]) | {"as"})
         elif c == 5:
